@@ -1,6 +1,6 @@
 (* C11 - segwit addresses (bech32/bech32m) round-trip and are validated, per network.  Statements only. *)
 From Coq Require Import ZArith String List.
-From BU Require Import Lib.Bytes Gen.Tables Model.Bech32 Model.Address Proofs.Bech32Facts Proofs.Bech32Distance Proofs.KeysFacts.
+From BU Require Import Lib.Bytes Gen.Tables Model.Bech32 Model.Address Proofs.Bech32Facts Proofs.Bech32Distance Proofs.Bech32DecodeDistance Proofs.KeysFacts.
 Import ListNotations.
 Open Scope list_scope.
 Open Scope Z_scope.
@@ -40,6 +40,20 @@ Theorem C11_distance_tight : exists data data', sym5 data /\ sym5 data' /\
   verify_checksum [97] data = Some BECH32 /\ verify_checksum [97] data' = Some BECH32.
 Proof. exact checksum_distance_tight. Qed.
 Print Assumptions C11_distance_tight.
+
+(* the same at the level of strings: take a string the decoder accepts, keep its prefix and separator, replace
+   one to four characters of the data part by other characters of the bech32 alphabet: whatever the result
+   decodes to, it is not the variant the original decoded to (so a bech32 address stays no bech32 address, a
+   bech32m address no bech32m address) *)
+Theorem C11_decoder_detects_4_substitutions : forall s s' hrp data spec,
+  bech32_decode s = Some (hrp, data, spec) ->
+  length s' = length s ->
+  firstn (length hrp + 1) s' = firstn (length hrp + 1) (map lower s) ->
+  Forall (fun c => In c bech32_charset) (skipn (length hrp + 1) s') ->
+  (1 <= hamming (skipn (length hrp + 1) (map lower s)) (skipn (length hrp + 1) s') <= 4)%nat ->
+  forall hrp' data' spec', bech32_decode s' = Some (hrp', data', spec') -> spec' <> spec.
+Proof. exact decode_detects_4. Qed.
+Print Assumptions C11_decoder_detects_4_substitutions.
 
 (* decoding an encoded string returns HRP, data and variant *)
 Theorem C11_decode_encode : forall hrp data spec, hrp_ok hrp -> sym5 data -> (length hrp + 1 + length data + 6 <= 90)%nat ->
